@@ -38,7 +38,7 @@ META = {"C13": {
                     "the generators do"],
     "probes": ["sanitised_collision", "casefold_collision", "long_name", "empty_after_sanitising",
                "lookup_repeated", "clear_locals", "looks_generated", "compile_probe", "program_probe",
-               "persistent_loop_variable"],
+               "persistent_loop_variable", "program_probe_names_compete", "fortran_program_probe"],
 }}
 
 PERSISTENT_TAGS = ("<state>", "<p>", "<ret_time_id>", "<ret_time>", "<ret_state>")
@@ -49,19 +49,22 @@ def is_state_variable(name):
     return name in ("<t>", "<dt>") or name.startswith(PERSISTENT_TAGS)
 
 
-ALPHA = list("abxyYXZz019_") + list("<>^*.-+%$ '") + ["é", "ß", "λ"]
+ALPHA = list("abxyYXZz019_") + list("<>^*.-+%$ '") + ["é", "ß", "λ", "\n", "\t"]
 LOOKS_GENERATED = ["y_", "y__0", "localx", "local_x", "lploc_x", "lploc_x_0", "drtf_x", "global_state_y",
                    "state_y", "state_y_0", "p_y", "func_f", "x_0", "x_1", "self", "t", "dt", "numpy",
                    "refcount", "run", "shutdown", "initialize", "end", "if", "do", "real", "class", "for",
                    "hoisted", "res1", "lploc_", "local", "_functions", "next_phase",
                    # other spellings of the generator's own (case-insensitive) Fortran names
-                   "Dagrt_ierr", "DAGRT_STATE", "Dagrt_t", "Dagrt_Nan", "DAGRT_dt"]
+                   "Dagrt_ierr", "DAGRT_STATE", "Dagrt_t", "Dagrt_Nan", "DAGRT_dt",
+                   # identifier characters plus one trailing line break
+                   "y\n", "x_0\n", "class\n", "lploc_x\n"]
 TAGS = ["<state>", "<p>", "<ret_state>", "<ret_time>", "<ret_time_id>"]
 FUNC_NAMES = ["<func>f", "<func>F", "<func>f_", "<func>f^", "<func>f*", "f", "<builtin>len", "<func>y",
               "<func>" + "g" * 70, "<func>G" + "g" * 69, "run", "<func>run", "^", "*", "<>", "class", "if", "1f",
               "None", "<func>class", "_private",
               # keywords behind characters that sanitising strips
-              "_class", "^class", " lambda", "<>in", "*not", "_None", "_if", "<func>_class", "<func>^in"]
+              "_class", "^class", " lambda", "<>in", "*not", "_None", "_if", "<func>_class", "<func>^in",
+              "class\n", "f\n", "<func>f\n"]
 
 PY_RESERVED = {"self.t", "self.dt", "self._numpy", "self._functions", "self.next_phase",
                "self.phase_transition_table", "self.StateComputed", "self.StepCompleted", "self.StepFailed",
@@ -231,50 +234,166 @@ def compile_probe(ctx, model):
         shutil.rmtree(d, ignore_errors=True)
 
 
+def _pick_pair(tape, cands):
+    """two distinct names, preferably with the same sanitised form (they compete for one identifier)."""
+    by = {}
+    for n in cands:
+        by.setdefault(sanitised(n).lower(), []).append(n)
+    twins = [v for v in by.values() if len(v) >= 2]
+    if twins and tape.chance(0.8, "twinpair"):
+        g = twins[tape.draw(len(twins), "twingroup")]
+        i = tape.draw(len(g), "tw1")
+        j = tape.draw(len(g) - 1, "tw2")
+        j = j if j < i else j + 1
+        return g[i], g[j]
+    if len(cands) < 2:
+        return None
+    i = tape.draw(len(cands), "p1")
+    j = tape.draw(len(cands) - 1, "p2")
+    j = j if j < i else j + 1
+    return cands[i], cands[j]
+
+
 def program_probe(ctx, tape, pool):
-    """End to end through the real Python generator: a pool name as loop variable and another one
-    as a temporary of the loop body.  Wherever the generator mentions a name it must use the one
-    identifier that belongs to it, so the class computes what the statements say: acc grows by
-    sum(0..3) + 4*1 = 10 per step."""
+    """End to end through the real Python generator.  Two phases that alternate; two names n1, n2
+    (preferably with the same sanitised form) are assigned in opposite order in the two phases and
+    read by an equal expression in both; a third name is the loop variable of the first phase.
+    Wherever the generator mentions a name it must use the one identifier that belongs to it, so the
+    class yields the closed-form values 90, 1290, 1380."""
     from pymbolic import var
     from dagrt.codegen import PythonCodeGenerator
     from dagrt.language import Assign, DAGCode, ExecutionPhase, YieldState
-    cands = [n for n in pool if n not in ("<t>", "<dt>", "<state>acc")]
-    if not cands:
+    # (names with control characters stay at the name-manager level: the generators also copy IR names
+    # into comments of the generated text, which is outside this property)
+    cands = [n for n in pool if n not in ("<t>", "<dt>", "<state>acc", "probe_q")
+             and not any(ord(ch) < 32 for ch in n)]
+    pair = _pick_pair(tape, cands)
+    if pair is None:
         return
-    lv = cands[tape.draw(len(cands), "loopvar")]
-    others = [n for n in cands if n != lv]
-    tmp = others[tape.draw(len(others), "tmpvar")] if others and tape.chance(0.7, "usetmp") else None
-    stmts = []
-    body = var("<state>acc") + var(lv)
-    deps = []
-    if tmp is not None:
-        stmts.append(Assign(id="s0", assignee=tmp, assignee_subscript=(), expression=1, depends_on=[]))
-        body = body + var(tmp)
-        deps = ["s0"]
+    n1, n2 = pair
+    rest = [n for n in cands if n not in pair]
+    lv = rest[tape.draw(len(rest), "loopvar")] if rest and tape.chance(0.8, "useloopvar") else None
+
+    def asg(sid, name, e, deps, loops=()):
+        return Assign(id=sid, assignee=name, assignee_subscript=(), expression=e, depends_on=deps, loops=list(loops))
+    both = var(n1) + 2 * var(n2)
+    acc = var("<state>acc")
+    main = [asg("a1", n1, 1, []), asg("a2", n2, 10, ["a1"]), asg("q", "probe_q", both, ["a2"])]
+    if lv is not None:
+        main.append(asg("s", "<state>acc", acc + var("probe_q") + var(lv), ["q"], [(lv, 0, 4)]))
     else:
-        body = body + 1
-    stmts.append(Assign(id="loop", assignee="<state>acc", assignee_subscript=(), expression=body,
-                        loops=[(lv, 0, 4)], depends_on=deps))
-    stmts.append(YieldState(id="ret", time=var("<t>"), time_id="final", expression=var("<state>acc"),
-                            component_id="acc", depends_on=["loop"]))
-    code = DAGCode.from_phases_list([ExecutionPhase(name="main", next_phase="main", statements=stmts)], "main")
+        main.append(asg("s", "<state>acc", acc + 4 * var("probe_q") + 6, ["q"]))
+    main.append(YieldState(id="y", time=var("<t>"), time_id="final", expression=acc, component_id="acc",
+                           depends_on=["s"]))
+    second = [asg("b2", n2, 100, []), asg("b1", n1, 1000, ["b2"]), asg("q", "probe_q", both, ["b1"]),
+              asg("s", "<state>acc", acc + var("probe_q"), ["q"]),
+              YieldState(id="y", time=var("<t>"), time_id="final", expression=acc, component_id="acc",
+                         depends_on=["s"])]
+    code = DAGCode.from_phases_list([ExecutionPhase(name="main", next_phase="second", statements=main),
+                                     ExecutionPhase(name="second", next_phase="main", statements=second)], "main")
     ctx.count("probe:program_probe")
-    if is_state_variable(lv):
+    if lv is not None and is_state_variable(lv):
         ctx.count("probe:persistent_loop_variable")
-    label = "python program probe (loop variable %r, temporary %r)" % (lv, tmp)
-    ctx.decoded["program_probe"] = {"loop_variable": lv, "temporary": tmp}
+    if sanitised(n1).lower() == sanitised(n2).lower():
+        ctx.count("probe:program_probe_names_compete")
+    label = "python program probe (names %r and %r, loop variable %r)" % (n1, n2, lv)
+    ctx.decoded["program_probe"] = {"names": [n1, n2], "loop_variable": lv}
     try:
         cls = PythonCodeGenerator(class_name="Method").get_class(code)
         m = cls({})
         m.set_up(t_start=0, dt_start=1, context={"acc": 0})
-        got = [ev.state_component for ev in m.run(max_steps=2) if isinstance(ev, m.StateComputed)]
+        got = [ev.state_component for ev in m.run(max_steps=3) if isinstance(ev, m.StateComputed)]
     except Exception as e:
         raise Violation("unstable", "%s: the generated class fails with %s: %s" % (label, type(e).__name__, e),
                         site="program:" + type(e).__name__)
-    if got != [10, 20]:
-        raise Violation("unstable", "%s: the generated class yields %r, the statements say [10, 20] (a name is "
-                        "not mapped to one identifier everywhere)" % (label, got), site="program:value")
+    if got != [90, 1290, 1380]:
+        raise Violation("unstable", "%s: the generated class yields %r, the statements say [90, 1290, 1380] (a "
+                        "name is not mapped to one identifier everywhere)" % (label, got), site="program:value")
+
+
+def fortran_program_probe(ctx, tape, pool):
+    """End to end through the real Fortran generator and gfortran: per-step scalars named from the pool,
+    read bare (plain copies) and inside expressions; <state>acc must grow by 9.5 per step."""
+    from pymbolic import var
+    import dagrt.codegen.fortran as f
+    from dagrt.language import Assign, DAGCode, ExecutionPhase
+    if shutil.which("gfortran") is None:
+        return
+    cands = [n for n in pool if not is_state_variable(n) and not n.startswith("<") and n.isascii()
+             and not any(ord(ch) < 32 for ch in n) and n not in ("probe_c1", "probe_c2")]
+    pair = _pick_pair(tape, cands)
+    if pair is None:
+        return
+    n1, n2 = pair
+    if tape.chance(0.4, "named_like_identifier"):
+        # the second name is spelled like the identifier the generator has handed out for the first
+        try:
+            ident = FortranNameManager().name_local(n1)
+        except Exception:
+            ident = None
+        if ident and ident != n1 and not ident.startswith("dagrt_"):
+            n2 = ident if tape.chance(0.7, "samecase") else ident.upper()
+
+    def asg(sid, name, e, deps):
+        return Assign(id=sid, assignee=name, assignee_subscript=(), expression=e, depends_on=deps)
+    acc = var("<state>acc")
+    stmts = [asg("a1", n1, 1.5, []), asg("a2", n2, 4.0, ["a1"]), asg("c1", "probe_c1", var(n1), ["a2"]),
+             asg("c2", "probe_c2", var(n2), ["c1"]),
+             asg("s", "<state>acc", acc + var("probe_c1") + 2 * var("probe_c2"), ["c2"]),
+             asg("t", "<t>", var("<t>") + var("<dt>"), ["s"])]
+    code = DAGCode.from_phases_list([ExecutionPhase(name="main", next_phase="main", statements=stmts)], "main")
+    ctx.count("probe:fortran_program_probe")
+    label = "fortran program probe (names %r and %r)" % (n1, n2)
+    ctx.decoded["fortran_program_probe"] = {"names": [n1, n2]}
+    import contextlib
+    import io
+    try:
+        cg = f.CodeGenerator("m", user_type_map={})
+        with contextlib.redirect_stdout(io.StringIO()):
+            text = cg(code)
+        acc_id = cg.name_manager.name_global("<state>acc")
+    except Exception as e:
+        raise Violation("unstable", "%s: the Fortran generator fails with %s: %s" % (label, type(e).__name__, e),
+                        site="fprogram:" + type(e).__name__)
+    driver = """program driver
+  use m, only: dagrt_state_type, initialize, run, shutdown
+  implicit none
+  type(dagrt_state_type), pointer :: st
+  integer :: r
+  allocate(st)
+  call initialize(dagrt_state=st, %s=0d0, dagrt_t=0d0, dagrt_dt=1d0)
+  do r = 1, 2
+    call run(dagrt_state=st)
+  end do
+  write(*,'(F12.4)') st%%%s
+  call shutdown(dagrt_state=st)
+  deallocate(st)
+end program
+""" % (acc_id, acc_id)
+    d = tempfile.mkdtemp(prefix="dagrt-verif-name-", dir=os.environ.get("VERIF_SCRATCH", "/var/tmp"))
+    try:
+        with open(os.path.join(d, "m.f90"), "w") as fh:
+            fh.write(text)
+        with open(os.path.join(d, "driver.f90"), "w") as fh:
+            fh.write(driver)
+        p = subprocess.run(["gfortran", "-O0", "-ffree-line-length-none", "m.f90", "driver.f90", "-o", "prog"], cwd=d,
+                           capture_output=True, text=True, timeout=120)
+        if p.returncode != 0:
+            err = [ln for ln in p.stderr.splitlines() if ln.startswith("Error")][:1]
+            raise Violation("compile:fortran", "%s: gfortran rejects the generated module: %s"
+                            % (label, err[0] if err else p.stderr[-300:]), site="fprogram")
+        r = subprocess.run(["./prog"], cwd=d, capture_output=True, text=True, timeout=60)
+        out = r.stdout.strip()
+        try:
+            val = float(out.split()[-1])
+        except Exception:
+            val = None
+        if r.returncode != 0 or val is None or abs(val - 19.0) > 1e-9:
+            raise Violation("unstable", "%s: the compiled module gives <state>acc = %r after two steps (exit %d), "
+                            "the statements say 19.0 (a name is not mapped to one identifier everywhere)"
+                            % (label, out[-60:], r.returncode), site="fprogram:value")
+    finally:
+        shutil.rmtree(d, ignore_errors=True)
 
 
 def sanitised(name):
@@ -396,6 +515,10 @@ def run_c13(ctx):
         if lang == "py":
             with tape.span("program_probe"):
                 program_probe(ctx, tape, pool)
+        else:
+            with tape.span("fortran_program_probe"):
+                if ctx.thorough or tape.chance(0.3, "fprobe"):
+                    fortran_program_probe(ctx, tape, pool)
     keys = [k for ns, k, v in model.live() if k is not None]
     san = [sanitised(k) for k in keys]
     if len(set(san)) < len(san):
